@@ -1,6 +1,6 @@
 -------------------------- MODULE MediaCacheTrace --------------------------
 (* Trace judge for C12.  A trace is one real request:
-     [stack, framing, handler: "json"|"form"|"none", body: "empty"|"valid"|"truncated"|"badenc"|"hookfail"|"cut", wire, ev]
+     [stack, framing, handler: "json"|"form"|"none", body: "empty"|"valid"|"truncated"|"badenc"|"hookfail"|"blank"|"padded"|"cut", wire, ev]
    body is classified by the trusted decoders (json.loads / bytes.decode); "cut" is a truncated
    form body, for which the handler may give a mapping or a malformed error (both runs are tried).
    ev: one event per get_media()/media access inside the responder, logged at its return:
